@@ -9,7 +9,9 @@ the Spec verdict on every model state (`implok`), and a branch atom.
 
 Snapshot: `((D d…) (G g…) (R g…) (n nData nGroup sgCount) (ds (sub…)…) (gs (sub…)…)
 (gv (state label style)…) (lb l…) (rd (name state label style same)…) (cs (cmd…) (cmd…)))`,
-`sub = (name data group)`, `cmd = (a d) | (r d)` (command and redo stacks, most recent first).
+`sub = (name data group)`, `cmd = (a d added) | (r d index)` (command and redo stacks, most recent
+first, with what the command object recorded: `AddData._added` as `T`/`F`, `RemoveData._index` as a
+number or `N`).
 Subset names are canonical: numbered in order of first appearance while walking `ds` then `gs`,
 snapshot after snapshot (both sides use the same walk). -/
 open GlueVerif GlueVerif.Sexp GlueVerif.Collection
@@ -25,6 +27,7 @@ def opOf? : Sexp → Option Op
   | .list [.atom "sl", g, v] => do some (.setLabel (← g.toNat?) (← v.toNat?))
   | .list [.atom "sy", g, v] => do some (.setStyle (← g.toNat?) (← v.toNat?))
   | .list (.atom "mrg" :: ds) => (ds.mapM toNat?).map .merge
+  | .list [.atom "ins", i, d] => do some (.insert (← i.toNat?) (← d.toNat?))
   | .list [.atom "seti", k, d] => do some (.setItem (← k.toNat?) (← d.toNat?))
   | .list [.atom "rst"] => some .restore
   | .list [.atom "ca", d] => d.toNat?.map (.doCmd true)
@@ -52,11 +55,14 @@ def subSexp (m : Ren) (s : Sub) : Sexp := .list [ofNat (renLookup m s.id), optNa
 
 def dedupIds (xs : List Nat) : List Nat := xs.foldl (fun acc x => if acc.contains x then acc else acc ++ [x]) []
 
-def cmdSexp (c : Bool × Nat) : Sexp := .list [.atom (if c.1 then "a" else "r"), ofNat c.2]
+def cmdSexp (c : DCmd) : Sexp :=
+  if c.add then .list [.atom "a", ofNat c.d, ofBool c.changed]
+  else .list [.atom "r", ofNat c.d, if c.changed then ofNat c.index else .atom "N"]
 
-def cmdOf? : Sexp → Option (Bool × Nat)
-  | .list [.atom "a", d] => d.toNat?.map fun n => (true, n)
-  | .list [.atom "r", d] => d.toNat?.map fun n => (false, n)
+def cmdOf? : Sexp → Option DCmd
+  | .list [.atom "a", d, ch] => do some ⟨true, ← d.toNat?, ← ch.toBool?, 0⟩
+  | .list [.atom "r", d, .atom "N"] => do some ⟨false, ← d.toNat?, false, 0⟩
+  | .list [.atom "r", d, i] => do some ⟨false, ← d.toNat?, true, ← i.toNat?⟩
   | _ => none
 
 def snapshot (m : Ren) (st : State) : Sexp :=
@@ -133,22 +139,25 @@ def pySnapOk (colors : Nat) (e : Sexp) : Bool :=
   | none => false
 
 /-- classification of the op sequence for the evidence: does it re-append a removed dataset while a
-group is live (`r`), restore (`s`), merge / setitem / undo / redo (`m`), remove a group (`g`). -/
+group is live (`r`), restore (`s`), merge / setitem / insert / undo / redo (`m`), remove a group
+(`g`), put a dataset in front of another one by `insert` or an undo (`p`). -/
 def branchOf (n colors : Nat) (ops : List Op) : String :=
-  let rec go (st : State) (removed : List Nat) (r s m g : Bool) : List Op → (Bool × Bool × Bool × Bool)
-    | [] => (r, s, m, g)
+  let rec go (st : State) (removed : List Nat) (r s m g p : Bool) : List Op → (Bool × Bool × Bool × Bool × Bool)
+    | [] => (r, s, m, g, p)
     | op :: rest =>
       let st' := Impl.step st op
       let gone := st.datasets.filter (fun d => !st'.datasets.contains d)
       let back := st'.datasets.filter (fun d => !st.datasets.contains d && removed.contains d)
       let r' := r || (!back.isEmpty && !st.groups.isEmpty)
       let s' := s || (op == .restore)
-      let m' := m || (match op with | .merge _ => true | .setItem _ _ => true | .undo => true | .redo => true | _ => false)
+      let m' := m || (match op with | .merge _ => true | .setItem _ _ => true | .insert _ _ => true | .undo => true | .redo => true | _ => false)
       let g' := g || (match op with | .removeGroup _ => true | _ => false)
-      go st' (removed ++ gone) r' s' m' g' rest
-  let (r, s, m, g) := go (init n colors) [] false false false false ops
+      let added := st'.datasets.filter (fun d => !st.datasets.contains d)
+      let p' := p || (!added.isEmpty && st'.datasets.getLast? != added.getLast?)
+      go st' (removed ++ gone) r' s' m' g' p' rest
+  let (r, s, m, g, p) := go (init n colors) [] false false false false false ops
   let b := fun (c : String) (x : Bool) => if x then c else "-"
-  b "r" r ++ b "s" s ++ b "m" m ++ b "g" g
+  b "r" r ++ b "s" s ++ b "m" m ++ b "g" g ++ b "p" p
 
 def stepWith (fixed : Bool) (n c : Sexp) (ops : List Sexp) (pyout : Sexp) : String :=
     match n.toNat?, c.toNat?, ops.mapM opOf? with
